@@ -137,8 +137,10 @@ def check_model(out, c):
             pa, pb = ArrayPressureProfile(arr[::-1].copy(), reverse=True), ArrayPressureProfile(arr.copy())
             pa.compute_pressure_profile()
             pb.compute_pressure_profile()
+            # (levels to 1e-14: numpy's log10 takes another code path on the reversed, non-contiguous view and may differ
+            # in the last bit)
             if not np.array_equal(np.asarray(pa.profile), np.asarray(pb.profile)) or \
-                    not np.array_equal(np.asarray(pa.pressure_profile_levels), np.asarray(pb.pressure_profile_levels)):
+                    not close(np.asarray(pa.pressure_profile_levels), np.asarray(pb.pressure_profile_levels), rtol=1e-14):
                 out.fail('array-order-independent', 'top-first listing with reverse=True gives other layers / levels than the surface-first listing')
         else:
             W.pressure = ArrayPressureProfile(arr.copy())
